@@ -353,6 +353,43 @@ check("the dict key used by the statements is itself a variable value", c08.VSTM
 check("quick parameters are a subset", set(map(repr, c08.VAR_PARAMS_QUICK)) <= set(map(repr, c08.VAR_PARAMS)), True)
 check("SET text of a variable value", [L.render(v) for v in ("it's", "a\\b", 5)], ["'it''s'", "'a\\\\b'", "5"])
 
+# ---- 13. caller's parameter object guard and same-object re-binding -------------------------------------------------------
+def _mut(p):
+    p["a"] = "'x'"
+
+
+def _mut_list(p):
+    p[0] = (1, "2")
+
+
+for params, fn, many, want_cls, want_bad in [
+    ({"a": "x"}, lambda p: None, False, "container=dict,style=S", 0),
+    ({"a": "x"}, _mut, False, "container=dict,style=S", 1),
+    ([1, True], lambda p: p.__setitem__(1, 1), False, "container=list,style=S", 1),  # True -> 1 is a change (type-strict)
+    ((1, "a"), lambda p: None, False, "container=tuple,style=S", 0),
+    ([(1, 2)], _mut_list, True, "container=rows:list_of_tuple,style=S", 1),
+    ([{"a": 1}], lambda p: p[0].__setitem__("a", 1.0), True, "container=rows:list_of_dict,style=S", 1),
+    ([], lambda p: None, True, "container=rows:none,style=S", 0),
+]:
+    c08._CALLS.clear()
+    del c08._MUTATED[:]
+    c08.guarded("S", "sql", params, lambda: fn(params), many=many)
+    check(f"guarded {want_cls} {want_bad}", (dict(c08._CALLS), len(c08._MUTATED)), ({want_cls: [1, want_bad]}, want_bad))
+c08._CALLS.clear()
+del c08._MUTATED[:]
+_P = {"a": 1}
+try:
+    c08.guarded("S", "sql", _P, lambda: (_mut(_P), 1 / 0))
+except ZeroDivisionError:
+    pass
+check("guarded also compares when the call raises", [m[0] for m in c08._MUTATED], ["container=dict,style=S"])
+c08._CALLS.clear()
+del c08._MUTATED[:]
+check("guarded without parameters compares nothing", (c08.guarded("S", "sql", None, lambda: 5), dict(c08._CALLS)), (5, {}))
+check("mk_params", [c08.mk_params(c, ["i", "v"], [1, "a"]) for c in ("tuple", "list", "dict")], [(1, "a"), [1, "a"], {"i": 1, "v": "a"}])
+check("containers per style", c08.CONTAINERS, {"pyformat_seq": ("tuple", "list"), "format_seq": ("tuple", "list"), "qmark": ("tuple", "list"), "pyformat_dict": ("dict",)})  # fmt: skip
+check("rebind values exclude sequences, include quoting strings", (any(isinstance(v, tuple) for _, v in c08.rebind_values("thorough", "pyformat_seq")), [v for _, v in c08.rebind_values("quick", "qmark")][-3:]), (False, ["it's", "a\\b", "%s ?"]))  # fmt: skip
+
 if FAILS:
     print(f"test_c08: {len(FAILS)} of {N[0]} checks FAILED")
     for f in FAILS[:40]:
